@@ -527,7 +527,9 @@ var (
 	ctlPieces = []string{"\t", "a\tb", "\t\t", "\r", "x\r", "\ry", "\x0b", "\x0c"}
 	ctlNoTab  = []string{"\r", "x\r", "\ry", "\x0b", "\x0c", "\r\r", "a\x0bb"}
 	// atoms of stash forms: always readable, never a complete form together with an open parenthesis
-	atoms = []string{"a", "b", "foo", "bar", "x1", "42", "-7", "nil", "t", "λ", "é1", "日本", "ñ", "car", "list", "quux-2"}
+	atoms = []string{"a", "b", "foo", "bar", "x1", "42", "-7", "nil", "t", "λ", "é1", "日本", "ñ", "car", "list", "quux-2",
+		// parentheses that are not syntax: inside a string, as a character, inside a |symbol|
+		"\"a ( b\"", "#\\(", "\"~A (~A~%\"", "|x(y|", "#\\)", "\")\""}
 )
 
 func genBlank(rt *rapid.T, label string) string {
@@ -608,7 +610,7 @@ func genStashForm(rt *rapid.T, ctl bool) []string {
 			line += ")"
 		} else if rapid.IntRange(0, 3).Draw(rt, "comment") == 0 {
 			// a comment to the end of the line: the line break after it is part of the form's syntax
-			line += rapid.SampledFrom([]string{" ; note", " ;c", " ;; (x)"}).Draw(rt, "commenttext") // (after a blank: slip's reader takes a ; that touches a token for a parse error)
+			line += rapid.SampledFrom([]string{" ; note", " ;c", " ;; (x)", " ;; (/ x 2", " ; )"}).Draw(rt, "commenttext") // (after a blank: slip's reader takes a ; that touches a token for a parse error)
 		}
 		f[i] = line + genBlank(rt, "trail")
 	}
